@@ -19,7 +19,7 @@ Ambiguous(P, x, ord) == x \in {o.oid : o \in P.occs} /\ Earlier(P, OccOf(P, x), 
 Judge(r) ==
   IF ~r.ok THEN <<>>
   ELSE LET files == FilesOf(r)
-           P == Project(files, r.main)
+           P == ProjectO(files, r.main, OrdOf(r))
            ord == OrdOf(r)
            occ == OccOf(P, r.oid)
            d == occ.node
@@ -36,7 +36,9 @@ Judge(r) ==
            stray == {e.oid : e \in (obs \ exp) \cup (exp \ obs)}
            supers == {o.oid : o \in {x \in P.occs : x.name = "super"}} IN
        IF obs # exp
-         THEN IF d \in ReassignedVars(P)
+         THEN IF SeveralVars(P, d)
+                THEN <<V(r.id, "deviation", "RemovedSymbolKeepsDefinition", "edit set " \o ToString(obs) \o " expected " \o ToString(exp) \o at)>>
+              ELSE IF d \in ReassignedVars(P)
                 THEN <<V(r.id, "deviation", "VarReassignmentMovesDefinition", "edit set " \o ToString(obs) \o " expected " \o ToString(exp) \o at)>>
               ELSE IF r.oid \in SpecialOids(files, "loop")
                 THEN <<V(r.id, "deviation", "LoopIndexLocatedAtCount", "rename started on a loop count: edit set " \o ToString(obs) \o " expected " \o ToString(exp) \o at)>>
@@ -56,17 +58,19 @@ Judge(r) ==
               ELSE IF Ambiguous(P, r.oid, ord) \/ \A x \in stray : Ambiguous(P, x, ord)
                 THEN <<V(r.id, "deviation", "UsageOfEarlierPassKept", "edit set " \o ToString(obs) \o " expected " \o ToString(exp) \o at)>>
               ELSE <<V(r.id, "violation", "", "rename edit " \o ToString(obs) \o " is not the set of occurrences of the symbol " \o ToString(exp) \o at)>>
-       ELSE IF U1 # {} \/ ~CaptureFree(files, r.main, r.oid, r.new) THEN <<>>       \* the new name collides/captures: no edit can preserve the build, C15 is silent
+       ELSE IF U1 # {} \/ ~CaptureFreeO(files, r.main, r.oid, r.new, ord) THEN <<>>       \* the new name collides/captures: no edit can preserve the build, C15 is silent
        ELSE IF ~r.okAfter \/ r.digestAfter # r.digestBefore
          THEN <<V(r.id, "violation", "", "the edited project does not build to the same output" \o at)>>
        ELSE IF r.backDone /\ r.backText = r.origText THEN <<>>
-       ELSE LET P2 == Project(RenameFiles(files, RenameSet(P, r.oid), r.new), r.main)
+       ELSE LET P2 == ProjectO(RenameFiles(files, RenameSet(P, r.oid), r.new), r.main, ord)
                 (* in the renamed project some occurrence involving the symbol resolved differently in an earlier pass *)
                 ambAfter == \E o \in P2.occs : Earlier(P2, o, ord) # {} /\ (o.node = d \/ d \in Earlier(P2, o, ord)) IN
             IF ~r.backDone /\ occ.file # r.main
               THEN <<V(r.id, "deviation", "ImportedFileSpanShadowsSymbols", "rename back inside an imported file returned no edit" \o at)>>
             ELSE IF r.oid \in SpecialOids(files, "loop")
               THEN <<V(r.id, "deviation", "LoopIndexLocatedAtCount", "rename back started on a loop count" \o at)>>
+            ELSE IF SeveralVars(P, d)
+              THEN <<V(r.id, "deviation", "RemovedSymbolKeepsDefinition", "rename back of one of several variables" \o at)>>
             ELSE IF d \in ReassignedVars(P)
               THEN <<V(r.id, "deviation", "VarReassignmentMovesDefinition", "rename back of a variable that is assigned twice" \o at)>>
             ELSE IF \E o \in P.occs : o.node = d /\ o.oid \in SpecialOids(files, "ifdef")
